@@ -27,9 +27,9 @@ from common import Prop
 from circuits import Component, Event, handler
 import circuits.core.helpers as _helpers
 
-MAXTICKS = 300
+MAXTICKS = 200
 MAXWAITS = 60
-MAXDISP = 6000
+MAXDISP = 4000
 NUSER = 5
 
 
